@@ -72,6 +72,7 @@ fn dispatch(id: &str, tier: Tier) -> i32 {
         "C07" => props::c07::run(tier),
         "C08" => props::c08::run(tier),
         "C09" => props::c09::run(tier),
+        "C10" => props::c10::run(tier),
         "C11" => props::c11::run(tier),
         "C12" => props::c12::run(tier),
         "C13" => props::c13::run(tier),
@@ -80,6 +81,8 @@ fn dispatch(id: &str, tier: Tier) -> i32 {
         "C16" => props::c16::run(tier),
         "C17" => props::c17::run(tier),
         "C18" => props::c18::run(tier),
+        "C19" => props::c19::run(tier),
+        "C20" => props::c20::run(tier),
         _ => {
             eprintln!("MACHINERY-ERROR: no check registered for {}", id);
             2
